@@ -310,11 +310,76 @@ def run_value_sequence(acc, reverse):
     acc.sample({"family": "all %d values in one process, %s order" % (len(vals), "reverse" if reverse else "listed")})
 
 
+def run_faulty(acc):
+    """agents that stop advancing (from the second request on they answer
+    with the OID they were asked about / with a smaller one): the wrapper's
+    walks must end exactly like the raw client's - same items, same exception
+    or none - in strict and in lenient ("warn") mode"""
+    from puresnmp import PyWrapper
+
+    value = ("int", 5)
+    db = build_db(value)
+    cases = [
+        ("walk", ("walk", (1, 3, 1)), {}),
+        ("walk-warn", ("walk", (1, 3, 1), "warn"), {"errors": "warn"}),
+        ("walk-strict-explicit", ("walk", (1, 3, 1), "strict"), {"errors": "strict"}),
+        ("multiwalk", ("multiwalk", [(1, 3, 1), (1, 3, 9)]), {}),
+        ("bulkwalk", ("bulkwalk", [(1, 3, 1), ENTRY], 2), {}),
+    ]
+    for fault in ("same", "smaller"):
+        for label, op, kw in cases:
+            outcomes = []
+            for side in ("raw", "wrapper"):
+                ag = ragent.Agent(db)
+                n = [0]
+
+                def hook(agent, req, resp, n=n, fault=fault):
+                    n[0] += 1
+                    if n[0] < 2:
+                        return resp
+                    resp = dict(resp)
+                    if fault == "same":
+                        resp["varbinds"] = [(o, ("int", 1)) for o, _ in req["varbinds"]]
+                    else:
+                        resp["varbinds"] = [((1, 2, 9), ("int", 1)) for _ in req["varbinds"]]
+                    return resp
+
+                ag.response_hook = hook
+                client, sender = world.make_client(creds(), ag.handle)
+                sender.limit = 12
+                try:
+                    if side == "raw":
+                        items, exc = ops.run_op(client, op)
+                        items = [(oid_s(o), models.pythonise(v)) for o, v in (items or ())]
+                    else:
+                        w = PyWrapper(client)
+                        name, a = op[0], op[1:]
+                        if name == "walk":
+                            gen = w.walk(oid_s(a[0]), **kw)
+                        elif name == "multiwalk":
+                            gen = w.multiwalk([oid_s(o) for o in a[0]])
+                        else:
+                            gen = w.bulkwalk([oid_s(o) for o in a[0]], bulk_size=a[1])
+                        items, exc = drive.drain(gen, 1000)
+                        items = [tuple(i) for i in items]
+                except world.Horizon as hz:
+                    items, exc = None, hz
+                outcomes.append((items, ops.exc_sig(exc), len(ag.log)))
+            facts = {"family": "agent that stops advancing", "fault": fault, "method": label}
+            acc.count(evaluations=1, nontrivial=1, states=1, transitions=outcomes[0][2] + outcomes[1][2], traces=1)
+            ok = outcomes[0] == outcomes[1]
+            acc.outcome("ok" if ok else "%s/wrapper-and-raw-outcomes-differ" % label)
+            if not ok:
+                acc.violation({"kind": "wrapper-and-raw-outcomes-differ", "detail": {**facts, "raw": repr(outcomes[0])[:300], "wrapper": repr(outcomes[1])[:300]}, "facts": facts, "case": {"faulty": True}})
+    acc.sample({"family": "walks against agents that stop advancing, strict and lenient, raw vs wrapper"})
+
+
 def shards(tier):
     return (
         [{"part": i, "of": 8, "tier": tier} for i in range(8)]
         + [{"sequence": True, "tier": tier}]
         + [{"value_sequence": True, "reverse": r, "tier": tier} for r in (False, True)]
+        + [{"faulty": True, "tier": tier}]
     )
 
 
@@ -324,6 +389,9 @@ def run_shard(params, acc):
         return
     if params.get("value_sequence"):
         run_value_sequence(acc, params["reverse"])
+        return
+    if params.get("faulty"):
+        run_faulty(acc)
         return
     for label, op, value in all_cases()[params["part"] :: params["of"]]:
         violations, nreq = run_case(label, op, value)
@@ -336,6 +404,17 @@ def run_shard(params, acc):
 
 
 def replay(case):
+    if case.get("faulty"):
+        class F:
+            def __init__(self):
+                self.v = []
+            def count(self, **k): pass
+            def outcome(self, *a, **k): pass
+            def sample(self, *a, **k): pass
+            def violation(self, v): self.v.append(v)
+        f = F()
+        run_faulty(f)
+        return f.v
     if case.get("value_sequence"):
         class B:
             def __init__(self):
